@@ -192,3 +192,112 @@ pub fn gen_c08(g: &mut Gen, tier: &str) {
         }
     }
 }
+
+pub fn gen_c02(g: &mut Gen, tier: &str) {
+    let n = if tier == "thorough" { 150_000 } else { 3_000 };
+    let mut days: Vec<i64> = vec![];
+    for b in [DAY_MIN, DAY_MAX, 0, 719_162, 730_179] {
+        for k in -8..=8 { days.push(b + k); }
+    }
+    let mut years: Vec<i64> = (-30..=30).collect();
+    years.extend(1990..=2035);
+    years.extend([-401, -400, -399, -101, -100, -99, 1600, 1700, 1900, 2100, 2400, YEAR_MIN + 1, YEAR_MAX - 1]);
+    for y in years {
+        if y == 0 { continue; }
+        for dd in 25..=31 { days.push(days_from_ymd(y, 12, dd)); }
+        for dd in 1..=7 { days.push(days_from_ymd(y, 1, dd)); }
+        for (m, dd) in [(2, 28), (3, 1), (3, 31), (4, 1), (6, 30), (7, 1), (9, 30), (10, 1)] { days.push(days_from_ymd(y, m, dd)); }
+    }
+    days.retain(|d| *d >= DAY_MIN && *d <= DAY_MAX);
+    days.sort(); days.dedup();
+    for d in &days { g.push(true, Input::new("date_info", vec![*d as i128])); }
+    for _ in 0..n {
+        let d = day_pool(g);
+        g.push(true, Input::new("date_info", vec![d]));
+        let v = dt_pool(g);
+        g.push(v.2 != 0, Input::new("dt_info", vec![v.0, v.1, v.2]));
+    }
+    let doys: [i128; 12] = [0, 1, 2, 59, 60, 61, 173, 174, 193, 194, 365, 366];
+    for _ in 0..n / 2 {
+        let d = day_pool(g);
+        let x = match g.rng.next() % 4 { 0 => 367, 1 => U32M, 2 => g.rng.range(0, 370), _ => *g.rng.pick(&doys) };
+        g.push(true, Input::new("date_set", vec![3, d, x]));
+    }
+    for d in [DAY_MIN, DAY_MIN + 100, DAY_MAX, DAY_MAX - 100] {
+        for x in doys { g.push(true, Input::new("date_set", vec![3, d as i128, x])); }
+    }
+}
+
+fn special_date_day(g: &mut Gen) -> i128 {
+    // month ends, 29 Feb (AD/BC), era boundary, range ends
+    let y = match g.rng.next() % 6 {
+        0 => g.rng.range(-8, 8), 1 => g.rng.range(2016, 2026), 2 => *g.rng.pick(&[-401i128, -400, -101, -100, -5, -4, -1, 1, 4, 100, 400, 1900, 2000, 2100]),
+        3 => *g.rng.pick(&[YEAR_MIN as i128 + 1, YEAR_MIN as i128 + 2, YEAR_MAX as i128 - 1, YEAR_MAX as i128 - 2]),
+        _ => g.rng.range(-3000, 3000),
+    };
+    let y = if y == 0 { 1 } else { y } as i64;
+    let m = g.rng.range(1, 12) as i64;
+    let d = match g.rng.next() % 4 { 0 => mlen(y, m), 1 => 1, 2 => (mlen(y, m) - 1).max(28).min(mlen(y, m)), _ => g.rng.range(1, mlen(y, m) as i128) as i64 };
+    days_from_ymd(y, m, d) as i128
+}
+
+pub fn gen_c05(g: &mut Gen, tier: &str) {
+    let n = if tier == "thorough" { 150_000 } else { 5_000 };
+    let counts: [i128; 22] = [0, 1, 2, 5, 11, 12, 13, 23, 24, 25, 48, 1200, 4800, 141_110_663, 141_110_664, 141_110_665, 11_759_222, 11_759_223, (1 << 31) - 1, 1 << 31, U32M - 5, U32M];
+    for k in 0..n {
+        let d = if k % 3 == 0 { day_pool(g) } else { special_date_day(g) };
+        let kind = (g.rng.next() % 4) as i128;
+        let c = match g.rng.next() % 5 { 0 | 1 => *g.rng.pick(&counts), 2 => g.rng.range(0, 60), 3 => g.rng.range(0, 150_000_000), _ => g.rng.range(0, U32M) };
+        if k % 4 == 0 {
+            let (nn, o) = (nanos_pool(g), if g.rng.chance(1, 2) { 0 } else { off_pool(g) });
+            let local = d * NPD + nn + o * NPS;
+            if local >= DAY_MIN as i128 * NPD && local < (DAY_MAX as i128 + 1) * NPD {
+                g.push(c != 0, Input::new("dt_addm", vec![kind, d, nn, o, c]));
+                continue;
+            }
+        }
+        g.push(c != 0, Input::new("date_addm", vec![kind, d, c]));
+    }
+    if tier == "thorough" {
+        for y in [-3i64, -2, -1, 1, 2, 3, 2019, 2020, 2021, 2024] {
+            for doy in 0..(if is_leap(y) { 366 } else { 365 }) {
+                let d = days_from_ymd(y, 1, 1) + doy;
+                for c in 0..=60i128 { for kind in 0..4i128 { g.push(c != 0, Input::new("date_addm", vec![kind, d as i128, c])); } }
+            }
+        }
+    }
+}
+
+pub fn gen_c07(g: &mut Gen, tier: &str) {
+    let n = if tier == "thorough" { 200_000 } else { 6_000 };
+    for k in 0..n {
+        let a = special_date_day(g);
+        let b = match k % 5 {
+            0 => special_date_day(g),
+            1 => a + g.rng.range(-70, 70),
+            2 => a + g.rng.range(-800, 800),
+            3 => day_pool(g),
+            _ => a + *g.rng.pick(&[-366i128, -365, -31, -30, -29, -28, -1, 0, 1, 28, 29, 30, 31, 365, 366]),
+        };
+        let b = b.clamp(DAY_MIN as i128, DAY_MAX as i128);
+        if k % 3 == 0 {
+            let (na, nb) = (nanos_pool(g), nanos_pool(g));
+            let nb = if k % 2 == 0 { na } else { nb };
+            g.push(true, Input::new("dt_ms", vec![a, na, 0, b, nb, 0]));
+        } else {
+            g.push(a != b, Input::new("date_ms", vec![a, b]));
+        }
+    }
+    if tier == "thorough" {
+        // all ordered pairs inside two windows (leap years, era boundary), sub-sampled deterministically by the seed
+        let w1: Vec<i64> = (days_from_ymd(-2, 1, 1)..=days_from_ymd(2, 12, 31)).collect();
+        let w2: Vec<i64> = (days_from_ymd(2023, 11, 1)..=days_from_ymd(2024, 4, 30)).collect();
+        for w in [w1, w2] {
+            for (i, a) in w.iter().enumerate() {
+                for (j, b) in w.iter().enumerate() {
+                    if (i * 31 + j * 17 + (g.rng.0 % 7) as usize) % 7 == 0 { g.push(a != b, Input::new("date_ms", vec![*a as i128, *b as i128])); }
+                }
+            }
+        }
+    }
+}
